@@ -143,7 +143,14 @@ def setMid (s : S) (how : String) (k : Nat) : Nat :=
     | some m => if m.mid ≤ 1 then 65535 else m.mid - 1
     | none => s.lastMid
   else if how = "edge" then 65534 - k      -- just before the wrap-around: the next allocations are 65535 - k, ..., 65535, 1
-  else ((s.out.foldl (fun acc m => max acc m.mid) s.lastMid) / 1000 + 1) * 1000 % 65000
+  else
+    let start := ((s.out.foldl (fun acc m => max acc m.mid) s.lastMid) / 1000 + 1) * 1000 % 65000
+    -- the first block of 1000 ids from there on that holds no id still in use
+    let rec go (fuel cand : Nat) : Nat :=
+      match fuel with
+      | 0 => cand
+      | fuel + 1 => if s.out.any (fun m => cand < m.mid ∧ m.mid ≤ cand + 999) then go fuel ((cand + 1000) % 65000) else cand
+    go 70 start
 
 def sessionStep (s : S) (ws : List String) : S × String :=
   match ws with
